@@ -5,3 +5,7 @@ import TsVerif.C09.Props
 #print axioms TsVerif.C09.chars_chunk_dep_witness
 #print axioms TsVerif.C09.chars_chunk_indep
 #print axioms TsVerif.C09.chars_chunk_indep_two
+#print axioms TsVerif.C09.lexStream_eq_coreChars
+#print axioms TsVerif.C09.chars_chunk_indep_port
+#print axioms TsVerif.C09.utf16_decode_encode
+#print axioms TsVerif.C09.utf16be_trail_witness
